@@ -41,6 +41,11 @@ def cases(tier, seed):
     out = []
     for i, (cls, sp) in enumerate(gen.stream(seed, n, CLASSES, "c05")):
         out.append({"cls": cls, "spec": sp, "max_leaves": 30000 if tier == "thorough" else MAX_LEAVES})
+    # appended classes of vlib/gen2.py (added after the generator freeze)
+    from vlib import gen2
+    for c in gen2.appended(tier, seed, "c05", ["A7", "A4", "A7", "A2"], 80, 600):
+        c["max_leaves"] = 30000 if tier == "thorough" else MAX_LEAVES
+        out.append(c)
     return out
 
 
